@@ -14,7 +14,16 @@ TRUSTED_BASE = _life.TRUSTED_BASE + [
     'not translated may only contain calls of a fixed list (imp_skeleton.py ALLOWED_CALLS / LOGGER_CALLS / INIT_CALLS), `self.<known attribute>`, '
     'no assert; the per-call refinement (ImpTie.v section 5) is by computation on seven representative model states, one task, lock free; '
     'fsm/machine.py is read for names only (pin), fsm/callback.py (the unlocked `finish` trigger of the run task) is not read by this tie',
+    'translate/machine_wiring.py (ast, fail-closed): nextline/fsm/machine.py + callback.py (+ the names of config.py) -> Gen/MachineWiring.v, '
+    'every method of StateMachine and Callback as a statement term of Life/MachineSyntax.v, both __init__ bodies; trusted: the Python-ast -> AST '
+    'mapping, and in Life/MachineTie.v the callback resolution and order of the transitions library 0.9.3 for one trigger (`script`: '
+    'before, exit callbacks of the source, set_state, enter callbacks of dest, after_state_change also for the internal transition; '
+    'on_enter_<state>/on_exit_<state> discovered iff the model has the method; MachineError iff no row; file/line references in the header), '
+    'the event data of each trigger (reset(reset_options=...), the others without arguments), the meaning of each hook / wait over the model state '
+    '(the model\'s own helpers log_hook / change_state_hook / ...; names of the suspension points gate_pc) and the Imp-level epilogue after a trigger '
+    '(copied from the model; Life/ImpTie.v); not modelled: a hook or wait that raises or is cancelled inside a trigger, the catching of the awaiting '
+    'task\'s own cancellation by `except BaseException` in Callback.on_exit_finished (the clause itself is required syntactically)',
 ]
 ASSUMPTIONS = _life.ASSUMPTIONS
 correspond, search, replay = _life.make('C15')
-TRANSLATORS = ['imp_skeleton']     # Gen/ImpSkeleton.v is regenerated from nextline/imp.py + main.py on every run (Life/ImpTie.v)
+TRANSLATORS = ['imp_skeleton', 'fsm_config', 'machine_wiring']     # Gen/ImpSkeleton.v is regenerated from nextline/imp.py + main.py on every run (Life/ImpTie.v)
